@@ -1,58 +1,18 @@
 /-
-  C04 — class lookup is exact and method lookup never guesses when ambiguous (mapper side;
-  the cache side follows through C02).
+  C04 — class lookup is exact and method lookup never guesses when ambiguous, for both the
+  mapper (PG/Props/C04m.lean, all record lists) and the cache reader (through C02).
 -/
-import PG.Spec.Retrace
-import PG.Lemmas.ListBasics
-import PG.Lemmas.MapperInv
+import PG.Props.C02
 namespace PG
 
-/-- the original name from the last class line with exactly that obfuscated name, and nothing
-    for any other string -/
-theorem C04_class (recs : List Record) (pm : Bool) (c : Bytes) :
-    (Mapper.build recs pm).remapClass c = SpecR.classOf recs c :=
-  remapClass_spec recs pm c
+theorem C04_cache_class (recs : List Record) (hr : ReprR recs) (hs : (Tables.build recs).Small)
+    (c : Cache) (hc : Cache.parse (Cache.write recs) = .ok c) (name : Bytes) :
+    c.remapClass name = SpecR.classOf recs name := by
+  rw [C02_class recs hr hs true c hc name, C04_class]
 
-theorem C04_method (recs : List Record) (pm : Bool) (c m : Bytes) :
-    (Mapper.build recs pm).remapMethod c m = SpecR.methodOf recs c m :=
-  remapMethod_spec recs pm c m
-
-/-- whenever method lookup answers, every frame produced by line-based remapping of that class
-    and method carries that same method name (and the answered class is the class's original
-    name) -/
-theorem C04_method_frames (recs : List Record) (pm : Bool) (c m co mo : Bytes) (line : Nat)
-    (file : Option Bytes) (h : (Mapper.build recs pm).remapMethod c m = some (co, mo)) :
-    ∀ fr ∈ (Mapper.build recs pm).remapFrame ⟨c, m, line, file, none⟩, fr.method = mo := by
-  rw [remapMethod_spec] at h
-  rw [remapFrame_line recs pm _ rfl]
-  unfold SpecR.methodOf at h
-  unfold SpecR.framesByLine
-  simp only
-  cases hl : SpecR.lastBlock recs c with
-  | none => simp [hl] at h
-  | some b =>
-    simp only [hl] at h
-    simp only
-    cases hf : b.entries.filter (fun e => e.obf == m) with
-    | nil => simp [hf] at h
-    | cons e rest =>
-      simp only [hf] at h
-      by_cases ha : (rest.all fun x => x.name == e.name) = true
-      · simp only [ha, if_true, Option.some.injEq, Prod.mk.injEq] at h
-        obtain ⟨_, hmo⟩ := h
-        intro fr hfr
-        rw [List.mem_map] at hfr
-        obtain ⟨x, hx, rfl⟩ := hfr
-        have hx' := (List.mem_filter.mp hx).1
-        simp only
-        rw [List.mem_cons] at hx'
-        cases hx' with
-        | inl hx' => rw [hx']; exact hmo
-        | inr hx' =>
-          rw [List.all_eq_true] at ha
-          have := ha x hx'
-          rw [beq_iff_eq] at this
-          rw [this]; exact hmo
-      · simp [ha] at h
+theorem C04_cache_method (recs : List Record) (hr : ReprR recs) (hs : (Tables.build recs).Small)
+    (c : Cache) (hc : Cache.parse (Cache.write recs) = .ok c) (cls m : Bytes) :
+    c.remapMethod cls m = SpecR.methodOf recs cls m := by
+  rw [C02_method recs hr hs true c hc cls m, C04_method]
 
 end PG
